@@ -27,6 +27,8 @@ pub mod c14;
 pub mod c18;
 pub mod c04;
 pub mod c03p;
+pub mod c05;
+pub mod c06;
 pub mod c09;
 pub mod c10;
 pub mod c13;
@@ -49,6 +51,8 @@ pub fn registry() -> Vec<(&'static str, fn())> {
     v.extend_from_slice(c03p::LIST);
     v.extend_from_slice(c03p::d8::LIST);
     v.extend_from_slice(c03p::d8m::LIST);
+    v.extend_from_slice(c05::LIST);
+    v.extend_from_slice(c06::LIST);
     v.extend_from_slice(c09::LIST);
     v.extend_from_slice(c19::LIST);
     v.extend_from_slice(c10::LIST);
